@@ -78,8 +78,22 @@ class Result:
         self.t0 = time.time()
 
 
+QUICK_QUERY_CAP = 660     # seconds: per-query solver cap in the quick tier
+QUICK_DEADLINE = 780      # seconds: no quick check runs longer than this (queries still waiting are listed as not run)
+
+
 def run_plan(res, queries, workers=8, mem_budget_gb=56, logdir=None):
-    """Run Kani queries over parallel lanes under a total memory budget."""
+    """Run Kani queries over parallel lanes under a total memory budget. In the quick tier every query is capped and the
+    whole plan has a deadline, so that the check stays a check one runs on every change."""
+    if os.environ.get("VERIF_DRY") == "1":
+        for q in queries:
+            print("DRY", q.harness)
+        return []
+    workers = max(workers, 14)
+    t_start = res.t0
+    if res.tier == "quick":
+        for q in queries:
+            q.timeout = min(q.timeout, QUICK_QUERY_CAP)
     logdir = logdir or os.path.join(WORK, "logs", res.prop)
     os.makedirs(logdir, exist_ok=True)
     todo = list(queries)
@@ -98,10 +112,20 @@ def run_plan(res, queries, workers=8, mem_budget_gb=56, logdir=None):
         if stop["flag"]:
             res.notrun.append(q.harness + " (skipped: a violation was already confirmed and VERIF_STOP_ON_VIOLATION=1)")
             return
+        need = q.mem_gb * 0.6  # scheduling estimate: peak RSS is well below the ulimit given to the query
         with cv:
-            while state["mem"] + q.mem_gb > mem_budget_gb and state["mem"] > 0:
+            while state["mem"] + need > mem_budget_gb and state["mem"] > 0:
                 cv.wait()
-            state["mem"] += q.mem_gb
+            state["mem"] += need
+        if res.tier == "quick":
+            left = QUICK_DEADLINE - (time.time() - t_start)
+            if left < 60:
+                with cv:
+                    state["mem"] -= need
+                    cv.notify_all()
+                res.notrun.append(q.harness + " (not started: the quick tier's deadline of %d s was reached)" % QUICK_DEADLINE)
+                return
+            q.timeout = min(q.timeout, left)
         lane = lanes.get()
         try:
             r = kani.run_query(q, lane, logdir)
@@ -110,7 +134,7 @@ def run_plan(res, queries, workers=8, mem_budget_gb=56, logdir=None):
         finally:
             lanes.put(lane)
             with cv:
-                state["mem"] -= q.mem_gb
+                state["mem"] -= need
                 cv.notify_all()
         if early and r.get("status") == "fail":
             with lock:
@@ -166,9 +190,15 @@ def confirm_violation(res, r):
         res.inconclusive.append((harness, "failed check %s but no concrete witness could be extracted" % (r.get("failed", [{}])[0].get("desc"),)))
         r["status"] = "inconclusive"
         return
-    nat = native_replay(harness.split("::")[-1], vals)
+    # one witness per failed check: take the first that reproduces natively
+    nat, reproduced = None, []
+    for cand in (r.get("witness_list") or [vals])[:6]:
+        nat = native_replay(harness.split("::")[-1], cand)
+        reproduced = [k for k, v in nat.items() if v[0] == 1]
+        if reproduced:
+            vals = cand
+            break
     r["native_replay"] = {k: {"rc": v[0], "out": v[1]} for k, v in nat.items()}
-    reproduced = [k for k, v in nat.items() if v[0] == 1]
     if not reproduced:
         why = "; ".join("%s: rc=%s %s" % (k, v[0], v[1].splitlines()[-1] if v[1] else "") for k, v in nat.items())
         res.inconclusive.append((harness, "counterexample did not reproduce natively - encoding or stub suspect (%s)" % why))
